@@ -10,11 +10,15 @@
 //                              m  304 with Content-Length: 9, no body
 //                              n  204, no body
 //                              e  200, Content-Length: 0
-// result R client got=<code>:<cl>:<bodylen>:<fnv>,...   (one entry per callback, in callback order)
+// result R client got=<code>:<cl>:<bodylen>:<fnv>,... err=<0|1>   (one entry per response delivered to a callback, in
+//        callback order; err=1 when a callback was called with an error, i.e. the connection failed)
 // the executor appends raw=<hex of everything the server sends> to the echoed op: the server's bytes are the model's input
 //
-// Direct oracles: c07-client-head (a callback is missing after 5 s, arrives out of order, or reports the wrong status /
-// body for its request), c07-client-queue (requests still recorded as outstanding after all responses were delivered).
+// Direct oracle: c07-client-head (a callback is missing after the wait, arrives out of order, reports an error, or
+// reports the wrong status / body for its request). For scripts that contain a HEAD request whose reply announces a
+// body this is the known finding HTTP-CLIENT-HEAD (the client parser is not told the request method); the model
+// predicts exactly what the defective parser delivers, so the correspondence on got= / err= still holds. Scripts
+// without HEAD wait up to 5 s per case, scripts with HEAD 2 s (their reports are the known finding either way).
 package main
 
 import (
@@ -200,15 +204,20 @@ func exec(e *lp.Exec) {
 			})
 		}
 		var out []string
-		deadline := time.After(5 * time.Second)
-		nhead := 0
+		wait := 5 * time.Second
+		if strings.Contains(","+f[2], ",h") {
+			wait = 2 * time.Second
+		}
+		deadline := time.After(wait)
+		nhead, failed, ncb := 0, 0, 0
 	collect:
 		for k := range toks {
 			select {
 			case g := <-ch:
+				ncb++
 				if g.err != nil {
 					e.Oracle("c07-client-head", "script %s: callback %d reports %v", f[2], k, g.err)
-					out = append(out, "err")
+					failed = 1
 					continue
 				}
 				code, body := expect(g.i, toks[g.i])
@@ -222,28 +231,28 @@ func exec(e *lp.Exec) {
 				}
 				out = append(out, fmt.Sprintf("%d:%d:%d:%x", g.code, g.cl, len(g.body), lp.Fnv(g.body)))
 			case <-deadline:
-				e.Oracle("c07-client-head", "script %s: %d of %d callbacks after 5 s", f[2], k, len(toks))
+				e.Oracle("c07-client-head", "script %s: %d of %d callbacks after %v", f[2], ncb, len(toks), wait)
 				break collect
 			}
 		}
-		if len(out) == len(toks) {
-			if n := nbhttp.VerifHeadsLen(cc); n != 0 {
-				e.Oracle("c07-client-queue", "script %s: %d requests still recorded as outstanding after every response was delivered", f[2], n)
-			}
-		}
 		cc.Close()
-		e.Key(f[2], nhead > 0)
+		e.Key(f[2], nhead > 0 || len(toks) > 1)
 		e.Count("requests", strconv.Itoa(len(toks)))
-		e.P("R client got=%s", strings.Join(out, ","))
+		e.P("R client got=%s err=%d", strings.Join(out, ","), failed)
 	}
 }
 
 func gen(g *lp.Gen) {
 	for cs := 0; cs < g.N; cs++ {
 		n := 1 + g.Intn(6)
+		withHead := g.Chance(1, 5) // HEAD scripts wait out the known finding: keep them few
 		var toks []string
 		for i := 0; i < n; i++ {
-			toks = append(toks, g.Pick("h", "h", "g")+g.Pick("l", "l", "c", "c", "m", "n", "e"))
+			m := "g"
+			if withHead && g.Chance(1, 2) {
+				m = "h"
+			}
+			toks = append(toks, m+g.Pick("l", "l", "c", "c", "m", "n", "e"))
 		}
 		g.P("C client")
 		g.P("K k%d-%d %s", g.Rng.Int31(), cs, strings.Join(toks, ","))
